@@ -527,7 +527,7 @@ impl<'a> Gen<'a> {
                 6 => format!("{} | float", self.expr_p(env, self.rng.pick(&[Kind::Str, Kind::Int, Kind::Float]), d)),
                 _ => format!("{} | abs", self.expr_p(env, Kind::Float, d)),
             },
-            Kind::Bool => match self.rng.below(16) {
+            Kind::Bool => match self.rng.below(19) {
                 0..=1 => self.atom(env, Kind::Bool),
                 2 => {
                     let k = self.rng.pick(&[Kind::Int, Kind::Str, Kind::Float, Kind::Any, Kind::ArrInt, Kind::Map]);
@@ -557,6 +557,18 @@ impl<'a> Gen<'a> {
                 12 => format!("{} is containing(pat={})", self.expr_p(env, self.rng.pick(&[Kind::ArrInt, Kind::Map]), d), self.safe_atom(env, Kind::Int)),
                 13 if env.in_loop => self.rng.pick(&["loop.first", "loop.last"]).to_string(),
                 14 if self.cfg.custom => format!("{} is sim_test", self.expr_p(env, Kind::Any, d)),
+                // a negated group that ENDS in a test and may be left early (short circuit, unused
+                // ternary branch): the negation must apply to whatever the group leaves behind
+                16 | 17 => {
+                    let t = self.rng.pick(&["defined", "undefined", "string", "number", "none", "iterable", "odd"]);
+                    let last = self.maybe_undefined(env, Kind::Any, 0);
+                    match self.rng.below(3) {
+                        0 => format!("not ({} and {} is {})", self.maybe_undefined(env, Kind::Any, d), last, t),
+                        1 => format!("not ({} or {} is {})", self.maybe_undefined(env, Kind::Any, d), last, t),
+                        _ => format!("not ({} if {} else {} is {})", self.expr_p(env, Kind::Bool, d), self.expr_p(env, Kind::Bool, d), last, t),
+                    }
+                }
+                18 => format!("not ({} is {})", self.maybe_undefined(env, Kind::Any, d), self.rng.pick(&["defined", "string", "even"])),
                 _ => format!("{} if {} else {}", self.expr_p(env, Kind::Bool, d), self.expr_p(env, Kind::Bool, d), self.expr_p(env, Kind::Bool, d)),
             },
             Kind::ArrInt | Kind::ArrStr | Kind::ArrAny | Kind::ArrUser => match self.rng.below(16) {
@@ -647,7 +659,30 @@ impl<'a> Gen<'a> {
                 v.to_string()
             }
         };
-        match self.rng.below(21) {
+        match self.rng.below(24) {
+            21 => {
+                // containment with odd operands: empty / multi-byte needles, non-string keys,
+                // bytes, none, NaN, a needle longer than the haystack
+                let vis = env.ctx_visible;
+                let needle = self.rng.pick(&["\"\"", "\"\u{e9}\"", "\"\u{1F389}\u{e9}\"", "\"a\u{300}\"", "1", "true", "none", "1.5", "n_big", "n_odd", "byt", "[1]", "{}", "s_uni", "\"a very long needle that is longer than most haystacks here\""]);
+                let hay = self.rng.pick(&["\"\"", "\"\u{e9}t\u{e9}\"", "s_uni", "s_empty", "byt", "m", "mm", "arr_i", "arr_mix", "arr_e", "[none, 1.5]", "{\"1\": 2}", "user", "none", "n_int"]);
+                let fix = |v: &str| if !vis && v.chars().next().map(|c| c.is_ascii_lowercase()).unwrap_or(false) && !["none", "true"].contains(&v) { "\"x\"".to_string() } else { v.to_string() };
+                format!("{} {} {}", fix(needle), self.rng.pick(&["in", "not in"]), fix(hay))
+            }
+            22 => {
+                // spreads of operands of every kind into array and map literals
+                let vis = env.ctx_visible;
+                let op = |g: &mut Self| -> String {
+                    let v = g.rng.pick(&["m", "user", "arr_i", "arr_mix", "s_uni", "none", "byt", "n_big", "nope", "[1, 2]", "{\"a\": 1}", "\"ab\"", "1", "mm", "arr_e", "{}"]);
+                    if !vis && v.chars().next().map(|c| c.is_ascii_lowercase()).unwrap_or(false) && v != "none" { "[3]".to_string() } else { v.to_string() }
+                };
+                if self.rng.chance(1, 2) {
+                    format!("[...{}, ...{}, 1] | length", op(self), op(self))
+                } else {
+                    format!("{{...{}, \"k\": 1, ...{}}} | length", op(self), op(self))
+                }
+            }
+            23 => format!("[x for x in [...{}, 1] if x] | length", self.atom_p(env, Kind::ArrAny)),
             16 => {
                 // range() with bounds and step at the edges of i128 (length arithmetic); `| length`
                 // so that a legal 100 000-element result costs nothing to print. Only constants
@@ -874,8 +909,9 @@ impl<'a> Gen<'a> {
         } else if !c.rest && self.rng.below(1000) < self.cfg.ill_typed / 2 {
             parts.push("bogus={1}".to_string()); // at most one undeclared argument
         }
-        if self.rng.chance(1, 10) && env.ctx_visible && (c.rest || c.params.iter().any(|p| p.name == "k")) {
-            parts.push("{...m}".to_string());
+        if env.ctx_visible && (c.rest || c.params.iter().any(|p| p.name == "k")) && self.rng.chance(1, if c.rest { 4 } else { 10 }) {
+            // (`m` may hold integer / boolean keys; the literal always does)
+            parts.push(self.rng.pick(&["{...m}", "{...m}", "{...{1: \"x\", \"a\": 2, true: 3}}", "{...mm}"]).to_string());
         }
         parts.join(" ")
     }
